@@ -463,8 +463,8 @@ Definition handle (sv : server) (r : req) : server * resp * (N -> bool) :=
           match find_sub sn (sv_subs sv) with
           | None => (sv, PErr NOT_FOUND, no_touch)
           | Some s =>
-              let (s', ls) := sub_pull (as_u16 max) now s in
-              (with_subs sv (upd_sub (s_uid s) (fun _ => s') (sv_subs sv)), PMsgs ls, touch1 (s_uid s))
+              (with_subs sv (upd_sub (s_uid s) (fun s0 => fst (sub_pull (as_u16 max) now s0)) (sv_subs sv)),
+               PMsgs (snd (sub_pull (as_u16 max) now s)), touch1 (s_uid s))
           end
       end
   | RAck n ids =>
